@@ -197,6 +197,16 @@ def cold_battery(expr):
     return _norm(battery(T))
 
 
+def _swap(x, old, new):
+    """the same shape with the opaque members replaced"""
+    m = dict(zip(map(id, old), new))
+    if isinstance(x, list):
+        return [m.get(id(y), y) for y in x]
+    if isinstance(x, dict):
+        return {k: m.get(id(y), y) for k, y in x.items()}
+    return m.get(id(x), x)
+
+
 def check_annotation(expr, col, passthrough=None, nontrivial=False, source="exhaustive", oracle=None):
     case = {"expr": expr}
     try:
@@ -256,7 +266,13 @@ def check_annotation(expr, col, passthrough=None, nontrivial=False, source="exha
             "Optional": (o1, lambda r: [r]), "tuple1": ([o1], lambda r: list(r)), "Final": (o1, lambda r: [r]), "ClassVar": (o1, lambda r: [r]),
             "newtype": (o1, lambda r: [r]), "field": ({"x": o1, "y": 3}, lambda r: [r.x]),
         }
-        if ctor in shapes:
+        # the same with bytes-like objects as the opaque members: text-like inputs are exactly what a routine is tempted to decode
+        for probe in ("objects", "bytes-like") if ctor in shapes else ():
+            if probe == "bytes-like":
+                o1, o2 = bytes(b"abc"), bytearray(b"1")
+                shapes = {k_: (_swap(v_[0], shapes_objs, (o1, o2)), v_[1]) for k_, v_ in shapes.items()}
+            else:
+                shapes_objs = (o1, o2)
             x, members = shapes[ctor]
             want = [o1, o2] if isinstance(x, (list, dict)) and ctor not in ("tuple1", "field") else [o1]
             for direction in ("unmarshal", "marshal"):
